@@ -875,6 +875,12 @@ where
                 "Configuration changed"
             );
 
+            // The send buffer is sized after `max_packet_size`: keep them
+            // in sync so that sending after a resize doesn't reallocate
+            if self.config.max_packet_size != config.max_packet_size {
+                self.send_buf = Vec::with_capacity(config.max_packet_size.get());
+            }
+
             self.config = config;
             Ok(())
         }
